@@ -31,6 +31,7 @@ import (
 
 	"go.uber.org/zap"
 
+	"github.com/ozontech/seq-db/cache"
 	"github.com/ozontech/seq-db/consts"
 	"github.com/ozontech/seq-db/disk"
 	"github.com/ozontech/seq-db/frac"
@@ -949,9 +950,140 @@ func chanActiveInversePooled(o vh.Opts, g gen) *vh.Channel {
 	return ch
 }
 
+// ---------------------------------------------------------------- channel: sealed LID blocks with tiny capacities
+
+type noCounter struct{}
+
+func (noCounter) AddLIDsCount(int) {}
+
+// lidsFile writes a small but complete index file whose LID section is produced by the real block generator with
+// the given block capacity (C03's writer export), and returns the table built while sealing plus a reader.
+func lidsFile(dir string, capacity int, tokens [][]byte, postings [][]uint32, nLids int) (*lids.Table, *disk.IndexReader, func(), error) {
+	f, err := os.CreateTemp(dir, "c02-lids-*.index")
+	if err != nil {
+		return nil, nil, nil, err
+	}
+	closeFn := func() { name := f.Name(); f.Close(); os.Remove(name) }
+	w, err := frac.VerifNewIndexWriter(f)
+	if err != nil {
+		return nil, nil, closeFn, err
+	}
+	fields := []frac.VerifField{{Name: "f", Tokens: tokens, Postings: postings}}
+	if err := w.WriteInfo(); err != nil {
+		return nil, nil, closeFn, err
+	}
+	if _, p, err := w.WriteTokens(fields, 1); err != nil || p != "" {
+		return nil, nil, closeFn, fmt.Errorf("tokens: %v %s", err, p)
+	}
+	ids := []seq.ID{{MID: 1 << 62, RID: 1}, {MID: 5, RID: 5}}
+	if err := w.WritePositions(uint32(len(ids)), []uint64{0}, 1); err != nil {
+		return nil, nil, closeFn, err
+	}
+	if _, err := w.WriteIDs(ids, []uint64{1, 2}, 4096, 1); err != nil {
+		return nil, nil, closeFn, err
+	}
+	o2n := make([]uint32, nLids+1)
+	for i := range o2n {
+		o2n[i] = uint32(i)
+	}
+	t, _, err := w.WriteLIDs(fields, o2n, capacity, 1)
+	if err != nil {
+		return nil, nil, closeFn, err
+	}
+	if err := w.Finish(); err != nil {
+		return nil, nil, closeFn, err
+	}
+	r := disk.NewIndexReader(disk.NewReadLimiter(1, nil), f, cache.NewCache[[]byte](nil, nil))
+	return t, &r, closeFn, nil
+}
+
+// chanSealedLids: the posting list of a token as the sealed fraction's block iterators deliver it - LID blocks of
+// 2..16 LIDs, so that tokens span many blocks (also blocks lying wholly inside one token) - vs EvalTree.narrow, the
+// form C02's index view uses (posting list cut to the borders, in iteration order).
+func chanSealedLids(o vh.Opts, g gen, dir string) *vh.Channel {
+	ch := vh.NewChannel("sealed.lids", "lids.IteratorDesc / IteratorAsc over LID blocks written by the real generator with capacities 2..16 (tokens spanning 1..20 blocks, every tid, windows inside / across / outside the list) vs EvalTree.narrow; non-trivial = the token spans >= 3 LID blocks")
+	n := o.Pick(120, 1200)
+	for i := 0; i < n; i++ {
+		nLids := g.r.Range(10, 80)
+		capacity := g.r.Range(2, 16)
+		ntok := g.r.Range(1, 4)
+		var tokens [][]byte
+		var postings [][]uint32
+		for t := 0; t < ntok; t++ {
+			tokens = append(tokens, []byte(fmt.Sprintf("v%02d", t)))
+			pct := []int{95, 60, 20, 100}[g.r.Intn(4)]
+			p := g.sublist(1, uint32(nLids), pct)
+			if len(p) == 0 {
+				p = []uint32{uint32(g.r.Range(1, nLids))}
+			}
+			postings = append(postings, p)
+		}
+		tbl, reader, closeFn, err := lidsFile(dir, capacity, tokens, postings, nLids)
+		if err != nil {
+			if closeFn != nil {
+				closeFn()
+			}
+			ch.Error = err.Error()
+			break
+		}
+		loader := lids.NewLoader(reader, cache.NewCache[*lids.Chunks](nil, nil))
+		for t := 0; t < ntok; t++ {
+			tid := uint32(t + 1)
+			blocks := 0
+			for bi := range tbl.MaxTIDs {
+				if tbl.GetAdjustedMinTID(uint32(bi)) <= tid && tid <= tbl.MaxTIDs[bi] {
+					blocks++
+				}
+			}
+			for k := 0; k < 6; k++ {
+				lo, hi := uint32(0), uint32(nLids+1)
+				if k > 0 {
+					lo = uint32(g.r.Range(0, nLids))
+					hi = uint32(g.r.Range(int(lo), nLids+1))
+				}
+				for _, rev := range []bool{false, true} {
+					impl := safely(func() string {
+						var cur *lids.Cursor
+						var next func() (uint32, bool)
+						if rev {
+							cur = lids.NewLIDsCursor(tbl, loader, tbl.GetLastBlockIndexForTID(tid), tid, noCounter{}, lo, hi)
+							next = (*lids.IteratorAsc)(cur).Next
+						} else {
+							cur = lids.NewLIDsCursor(tbl, loader, tbl.GetFirstBlockIndexForTID(tid), tid, noCounter{}, lo, hi)
+							next = (*lids.IteratorDesc)(cur).Next
+						}
+						var out []uint32
+						for c := 0; c <= nLids+2; c++ {
+							v, ok := next()
+							if !ok {
+								return "ok " + vh.JoinInts(out)
+							}
+							out = append(out, v)
+						}
+						return "err no-termination"
+					})
+					ch.Add(fmt.Sprintf("narrow %s %d %d %s", dir2(rev), lo, hi, vh.JoinInts(postings[t])), impl, blocks >= 3,
+						fmt.Sprintf("blocks=%d", min(blocks, 8)), "dir="+dir2(rev))
+				}
+			}
+		}
+		closeFn()
+	}
+	return ch
+}
+
+// dir2: LID iteration direction of the posting iterators (rev = seq.DocsOrderAsc = LIDs descending)
+func dir2(rev bool) string { return dir(rev) }
+
 // ---------------------------------------------------------------- real fractions
 
+type sealedRef struct {
+	f *frac.Sealed
+	h *history
+}
+
 type env struct {
+	prev    *sealedRef           // the re-opened sealed fraction of the previous small corpus (pair probe)
 	dirtier map[int]*frac.Active // by number of documents
 	dir     string
 	cm      *fracmanager.CacheMaintainer
@@ -1250,12 +1382,17 @@ type history struct {
 	// half: one more document whose bulk is half indexed (ids and field tokens, not yet `_all_`) when the steps
 	// with n = len(docs)+1 are asked, on a second fraction built from the same documents
 	half *doc
+	// sealedOnly: ask only the sealed forms (large corpora)
+	sealedOnly bool
 }
 
 func (h *history) lines() []string {
 	ls := []string{fmt.Sprintf("corpus %d %s", h.bulk, docsStringM(h.docs, "+"))}
 	if h.half != nil {
 		ls = append(ls, "half "+docsString([]doc{*h.half}))
+	}
+	if h.sealedOnly {
+		ls = append(ls, "sealedonly")
 	}
 	for _, s := range h.steps {
 		ls = append(ls, fmt.Sprintf("ask %d %s %s", s.n, s.w, s.enc))
@@ -1272,6 +1409,7 @@ type sysCase struct {
 	impl  string
 	h     *history
 	large bool
+	pre   *history // pair probe: the corpus of the other fraction, ingested before this one
 }
 
 func (c sysCase) key() string {
@@ -1279,7 +1417,11 @@ func (c sysCase) key() string {
 }
 
 func (c sysCase) replay() []string {
-	return append(c.h.lines(), "expect "+c.key())
+	var ls []string
+	if c.pre != nil {
+		ls = c.pre.lines()
+	}
+	return append(append(ls, c.h.lines()...), "expect "+c.key())
 }
 
 // activeRequest renders the arrival tables of the real fraction for ActiveIndex.search.
@@ -1322,6 +1464,9 @@ func runCorpus(e *env, h *history, act *vh.Channel) ([]sysCase, error) {
 	var cases []sysCase
 	docs := h.docs
 	ask := func(a *frac.Active, s step, kind string) {
+		if h.sealedOnly {
+			return
+		}
 		impl := searchFrac(a, s.ast, s.w)
 		cases = append(cases, sysCase{kind: kind, n: s.n, w: s.w, query: s.enc, docs: docsString(docs[:s.n]), impl: impl, h: h})
 		if act != nil && !hasNested(docs) {
@@ -1380,7 +1525,69 @@ func runCorpus(e *env, h *history, act *vh.Channel) ([]sysCase, error) {
 			cases = append(cases, sysCase{kind: "reopened", n: s.n, w: s.w, query: s.enc, docs: ds, impl: searchFrac(re, s.ast, s.w), h: h})
 		}
 	}
+	if len(docs) <= 100 && !h.sealedOnly {
+		if e.prev != nil {
+			cases = append(cases, pairProbe(e.prev, &sealedRef{re, h})...)
+		}
+		e.prev = &sealedRef{re, h}
+	}
 	return cases, nil
+}
+
+func firstFinal(h *history) (step, bool) {
+	for _, s := range h.steps {
+		if s.n == len(h.docs) {
+			return s, true
+		}
+	}
+	return step{}, false
+}
+
+// pairProbe: a search that fails inside sealed fraction A (cancelled context), then two sealed data providers (A and
+// B) alive at the same time, asked alternately A, B, A - no garbage collection in between, so that whatever the
+// failed search gave back to the pools is what the two providers are built from.  Every answer is compared with
+// Spec.search over the fraction's own documents.
+func pairProbe(a, b *sealedRef) []sysCase {
+	sa, oka := firstFinal(a.h)
+	sb, okb := firstFinal(b.h)
+	if !oka || !okb {
+		return nil
+	}
+	defer debug.SetGCPercent(debug.SetGCPercent(-1))
+	params := func(s step) processor.SearchParams {
+		return processor.SearchParams{AST: s.ast, From: seq.MID(s.w.from), To: seq.MID(s.w.to), Limit: s.w.limit, WithTotal: s.w.withTotal, Order: s.w.order}
+	}
+	failed := safely(func() string {
+		ctx, cancel := context.WithCancel(context.Background())
+		cancel()
+		dp, rel := a.f.DataProvider(ctx)
+		defer rel()
+		_, err := dp.Search(params(sa))
+		if err == nil {
+			return "no-error"
+		}
+		return "err"
+	})
+	var r1, r2, r3 string
+	all := safely(func() string {
+		dpA, relA := a.f.DataProvider(context.Background())
+		defer relA()
+		dpB, relB := b.f.DataProvider(context.Background())
+		defer relB()
+		r1 = safely(func() string { return qprAnswer(dpA.Search(params(sa))) })
+		r2 = safely(func() string { return qprAnswer(dpB.Search(params(sb))) })
+		r3 = safely(func() string { return qprAnswer(dpA.Search(params(sa))) })
+		return "ok"
+	})
+	if all != "ok" || failed == "panic" {
+		r1, r2, r3 = "panic", "panic", "panic"
+	}
+	da, db := docsString(a.h.docs), docsString(b.h.docs)
+	return []sysCase{
+		{kind: "pair-first", n: sa.n, w: sa.w, query: sa.enc, docs: da, impl: r1, h: b.h, pre: a.h},
+		{kind: "pair-second", n: sb.n, w: sb.w, query: sb.enc, docs: db, impl: r2, h: b.h, pre: a.h},
+		{kind: "pair-first-again", n: sa.n, w: sa.w, query: sa.enc, docs: da, impl: r3, h: b.h, pre: a.h},
+	}
 }
 
 // plan draws the questions of one corpus: every query at the end, and each query with probability 1/3 at every
@@ -1438,6 +1645,8 @@ func replayHistories(lines []string) ([]*history, []map[string]bool, error) {
 			}
 			hs = append(hs, &history{bulk: b, docs: docs})
 			expects = append(expects, map[string]bool{})
+		case len(f) == 1 && f[0] == "sealedonly" && len(hs) > 0:
+			hs[len(hs)-1].sealedOnly = true
 		case len(f) == 2 && f[0] == "half" && len(hs) > 0:
 			d, err := parseDocs(f[1])
 			if err != nil || len(d) != 1 {
@@ -1518,6 +1727,9 @@ func main() {
 		if want("active.merge") {
 			rep.AddChannel(chanActiveMerge(o, gen{rng0.Fork()}), o.Driver)
 		}
+		if want("sealed.lids") && e != nil {
+			rep.AddChannel(chanSealedLids(o, gen{vh.NewRNG(o.Seed + 79)}, e.dir), o.Driver)
+		}
 		if want("active.inverse.pooled") {
 			rep.AddChannel(chanActiveInversePooled(o, gen{vh.NewRNG(o.Seed + 78)}), o.Driver)
 		}
@@ -1566,6 +1778,37 @@ func main() {
 				if err != nil {
 					orc.Error = err.Error()
 					break
+				}
+				sys = append(sys, cs...)
+			}
+			// one token spanning three LID blocks (LIDBlockCap = 64Ki): 135000 documents all carrying `_all_`, asked on the
+			// sealed forms only, windows at the old end of the fraction (beyond the token's first two LID blocks)
+			if orc.Error == "" {
+				const nBig = 135000
+				docs := make([]doc, nBig)
+				for k := range docs {
+					i := (k * 7919) % nBig // arrival order scattered over the id range
+					docs[k] = doc{id: seq.ID{MID: seq.MID(1 + i/100), RID: seq.RID(i)}, toks: [][2]string{{"_all_", ""}}}
+					if i%1000 == 0 {
+						docs[k].toks = append(docs[k].toks, [2]string{"a", "x"})
+					}
+				}
+				qs := []*parser.ASTNode{lit("_all_", "*"), lit("_all_", "*"), lit("a", "x"), logical(3, lit("a", "x")), lit("_all_", "*")}
+				ws := []window{
+					{from: 1, to: 2, limit: 50, withTotal: true},
+					{from: 1, to: 2, limit: 50, withTotal: true, order: seq.DocsOrderAsc},
+					{from: 0, to: ^uint64(0), limit: 200, withTotal: true},
+					{from: 1, to: 1, limit: 10, withTotal: true},
+					{from: 600, to: 601, limit: 300, withTotal: true},
+				}
+				h := plan(g, docs, 15000, qs, ws, false)
+				h.sealedOnly = true
+				cs, err := runCorpus(e, h, nil)
+				if err != nil {
+					orc.Error = err.Error()
+				}
+				for i := range cs {
+					cs[i].large = true
 				}
 				sys = append(sys, cs...)
 			}
